@@ -43,6 +43,7 @@ fn main() {
         "parser-streams" => cmd_parser::run_streams(rest),
         "parser-files" => cmd_parser::run_files(rest),
         "linear" => cmd_linear::run(rest),
+        "ie-order" => cmd_linear::run_ie(rest),
         "airvals" => cmd_airvals::run(rest),
         "pi-seed" => cmd_pubinput::run_seed(rest),
         "pi-validate" => cmd_pubinput::run_validate(rest),
